@@ -226,6 +226,7 @@ type EngineSpec struct {
 	Backend  string `json:"backend"`           // vm | vmcall | closure | interp
 	UserFuns bool   `json:"user_funs,omitempty"` // register tracing / lazy / poly user functions and a custom operator
 	Tag      int    `json:"tag,omitempty"`       // != 0: this engine also registers tag(x) = x + Tag, a function that is DIFFERENT on every engine that has one
+	Late     bool   `json:"late,omitempty"`      // the engine compiles a trivial expression BEFORE its functions are registered (registration after the first compilation)
 }
 
 var backends = []string{"vm", "vmcall", "closure", "interp"}
@@ -294,6 +295,17 @@ func buildEngine(spec EngineSpec, rec recFn) *yae.Expr {
 		e.UseClosureCompiler().EnableDebug(io.Discard)
 	default:
 		panic("unknown backend " + spec.Backend)
+	}
+	if spec.Late {
+		// first compilation (which initialises the engine) before any registration
+		func() {
+			defer func() {
+				if r := recover(); r != nil && simrt.IsAbort(r) {
+					panic(r)
+				}
+			}()
+			e.Compile("1", map[string]interface{}{})
+		}()
 	}
 	if spec.UserFuns {
 		registerUserFuns(e, rec)
@@ -978,6 +990,10 @@ var progPool = []Prog{
 	{"strtotime(\"2021-05-06 07:08:09 Asia/Tokyo\") - strtotime(\"2021-05-06 07:08:09 Europe/Paris\")", "none", false, false},
 	{"strtotime(\"@86400\") == '1970-01-02 00:00:00 UTC'", "none", false, false},
 	{"'2022-02-03T04:05:06+08:00' >= t", "map", false, false},
+	// number keys that are different keys but closer to each other than the comparison epsilon
+	{"string([0.1 + 0.2: \"sum\", 0.3: \"lit\", 7: \"seven\"])", "none", false, false},
+	{"[0.0000000001: 1, 0.0000000002: 2, 0.0000000003: 3, 0.00000000015: 4]", "none", false, false},
+	{"[x - x + 0.1 + 0.2: s, 0.3: \"lit\", 0.30000000001: \"near\"]", "map", false, false},
 	{"string(t)", "map", false, false},
 	{"[t, '2020-01-02 03:04:05']", "struct", false, false},
 	{"{w: t, z: strtotime(\"@86400\")}", "map", false, false},
